@@ -38,6 +38,7 @@ def run_item(P, item):
     if kind == 'step':
         from . import vc_core
         cfg = Cfg(item['flavour'], item['policy'], limit=item['limit'], ttl=item['ttl'], mem=item['mem'], fw=item['fw'])
+        cfg.extreme = item.get('extreme')
         r = vc_core.run_step(P, cfg, item['n'], item['op'], props=set(item['props']), seed=item.get('seed', 0), timeout_ms=TIMEOUT_MS[item.get('tier', 'quick')], nmax=None, hits_max=item.get('hits_max', False), inv_for=item.get('inv_for'))
         fails = list(r.failed)
         if 'C16' in item['props']: fails += [p for p in r.panics if True]
@@ -52,7 +53,7 @@ def run_item(P, item):
         if 'C17' in item['props'] or 'C16' in item['props']: fails += r.deadlocks
         return dict(paths=r.paths, claims=r.claims, failed=fails, other_panics=len(r.panics), other_deadlocks=len(r.deadlocks), classes=sorted(r.classes),
                     funcs=sorted(r.funcs), builtins=sorted(r.builtins), checks=r.stats['checks'], solver_s=r.stats['solver_s'], blocks=r.stats['blocks'],
-                    infeasible=r.stats['infeasible'], spurious_real=getattr(r, 'spurious_real', 0), tag=f"STEP {cfg.tag()} n={item['n']} {item['op']}{' hits=u64::MAX' if item.get('hits_max') else ''}")
+                    infeasible=r.stats['infeasible'], spurious_real=getattr(r, 'spurious_real', 0), tag=f"STEP {cfg.tag()} n={item['n']} {item['op']}{' hits=u64::MAX' if item.get('hits_max') else ''}{(' extreme ' + item['extreme']) if item.get('extreme') else ''}")
     mod = __import__('mirsym.vc_' + kind, fromlist=['run'])
     return mod.run(P, item)
 
